@@ -19,6 +19,7 @@ def one(f):
             getattr(importlib.import_module(m), fn)(prog, R)
         except Exception as e:
             errs.append('CRASH %s: %r' % (g, e))
+    props.layout_guard(prog, R)
     claimed = set(r for sp in props.PROPS.values() for r in sp['rules'])
     known = set()
     try:
@@ -26,7 +27,8 @@ def one(f):
     except Exception:
         pass
     bad = sorted(set(it['key'] for it in R.items if not it['ok'] and it['rule'] in claimed and it['key'] not in known))
-    return os.path.basename(f)[4:-5], bad, errs
+    und = sorted(set(it['key'] for it in R.items if it.get('undecided') and it['rule'] in claimed))
+    return os.path.basename(f)[4:-5], bad, errs, und
 
 
 if __name__ == '__main__':
@@ -37,11 +39,22 @@ if __name__ == '__main__':
     with ProcessPoolExecutor(max_workers=10) as ex:
         res = list(ex.map(one, files))
     tot = 0
-    for name, bad, errs in res:
+    totu = 0
+    import collections
+    urules = collections.Counter()
+    for name, bad, errs, und in res:
         tot += len(bad)
+        totu += len(und)
+        for k in und:
+            urules[k.split(':')[0].split('/')[0]] += 1
         rules = sorted(set(k.split(':')[0].split('/')[0] for k in bad))
-        print('%-6s %3d  %s %s' % (name, len(bad), ' '.join(rules), ' '.join(errs)))
+        print('%-6s %3d  %s %s   [%d without verdict]' % (name, len(bad), ' '.join(rules), ' '.join(errs), len(und)))
         if '-v' in sys.argv or args:
             for k in bad:
                 print('        ', k)
+    if '-u' in sys.argv:
+        for name, bad, errs, und in res:
+            for k in und:
+                print('   ?', name, k)
+    print('instances without verdict:', totu, dict(urules.most_common()))
     print('total', tot)
